@@ -54,7 +54,7 @@ func init() { childFns["C13"] = c13Child }
 func c13Child(run *evid.Run, batch, nb int, j *Journal) {
 	installHook()
 	nStress := envInt("VERIF_C13_STRESS", 0)
-	for i := batch; i < nStress; i += nb {
+	for i := batch; i < nStress && !evid.IsSaturated(); i += nb {
 		c13Stress(run, i, j)
 	}
 	// the sweep: (kind1, point, kind2) triples, dealt round-robin to the batches
@@ -64,7 +64,7 @@ func c13Child(run *evid.Run, batch, nb int, j *Journal) {
 		for _, k1 := range c13Kinds {
 			for _, p := range c13Points[k1] {
 				for _, k2 := range c13Kinds {
-					if n%nb == batch {
+					if n%nb == batch && !evid.IsSaturated() {
 						c13Preempt(run, sw, k1, p, k2, j)
 					}
 					n++
@@ -73,7 +73,7 @@ func c13Child(run *evid.Run, batch, nb int, j *Journal) {
 		}
 	}
 	// bounded merges: race and deadlock only
-	for i := batch; i < nStress/8; i += nb {
+	for i := batch; i < nStress/8 && !evid.IsSaturated(); i += nb {
 		c13Bounded(run, i, j)
 	}
 }
